@@ -740,6 +740,37 @@ def check_adam_step(ctx, case):
         ctx.violation("C07 [sampled test] small Adam step decreased a quadratic objective",
                       {"case": case, "iteration": t, "row": i, "before": float(a["vals"][i]), "after": float(b["vals"][i])})
         return False
+  # ---- correspondence with the Lean model of the moment arithmetic (Float instance, bit-exact inputs): every recorded
+  # step that was not touched by the restriction equals the model's displacement for that gradient history
+  if ctx.driver is not None and not case.get("constraints") and len(log) >= 2:
+    from common import bits, unbits
+    T = len(log) - 1
+    usable = [t for t in range(T) if log[t]["grads"] is not None and len(log[t]["pts"]) == len(log[t + 1]["pts"]) == len(log[0]["pts"])]
+    if usable and usable == list(range(len(usable))):
+      n = len(log[0]["pts"])
+      hist = [[float(log[t]["grads"][i, j]) for t in usable] for i in range(n) for j in range(dim)]
+      p = case["params"]
+      r = ctx.driver.call({"op": "adam", "lr": bits(p["learning_rate"]), "beta1": bits(p["beta_1"]), "beta2": bits(p["beta_2"]),
+                           "eps": bits(p["epsilon"]), "grads": [[bits(x) for x in h] for h in hist]})
+      if "error" in r:
+        ctx.disagree("driver error " + r["error"], case)
+        return True
+      lo, hi = numpy.array(case["bounds"], dtype=float).T
+      compared = 0
+      for idx, h in enumerate(r["updates"]):
+        i, j = divmod(idx, dim)
+        if j in fixed:
+          continue
+        for t, ub in zip(usable, h):
+          u = unbits(ub)
+          x0, x1 = log[t]["pts"][i, j], log[t + 1]["pts"][i, j]
+          if not numpy.isfinite(u) or not (lo[j] < x0 + u < hi[j]) or not (lo[j] < x1 < hi[j]):
+            continue    # clipped by the restriction (or 0/0 with epsilon 0)
+          compared += 1
+          if abs((x1 - x0) - u) > 1e-9 * abs(u) + 8 * 2.0 ** -52 * max(abs(x0), abs(x1)) + 1e-300:
+            ctx.disagree(f"Adam step {t} of row {i}, coordinate {j}: recorded {x1 - x0!r}, model of the moment arithmetic {u!r}", case)
+            return True
+      ctx.count("adam steps compared with the Lean moment model", compared)
   ctx.count("[test] adam small steps")
   return True
 
